@@ -7,5 +7,6 @@ mkdir -p .bin .tmp evidence replays
 (cd extract && go build -o ../.bin/extract .)
 ./.bin/extract /repo lean/NotationCore/Generated
 (cd lean && lake build NotationCore driver)
+cp lean/.lake/build/bin/driver .bin/driver.lastgood
 (cd harness && go build -tags verif -o ../.bin/harness .)
 echo setup ok
